@@ -115,6 +115,8 @@ def families(q):
                                 HTexts={"Alpha", ""}, Styles={"Heading2"}, MLs={1, 3}, MaxK=1)))
         fam.append(("tocnote", dict(OpNames={"AddHeading", "AddFootnoteToRun", "GenerateTOC", "UpdateTOC", "Reopen"}, Depth=3,
                                     Runs={"heading"}, Files={True}, HLvls={1}, MLs={3})))
+        # a TOC generated while only shallow headings exist, deeper headings added afterwards, then updated
+        fam.append(("tocupd", dict(OpNames={"AddHeading", "GenerateTOC", "UpdateTOC"}, Depth=4, HLvls={1, 3}, MLs={3})))
     else:
         # every PAIR of list calls over every type / symbol / level class / start (cache-key collisions of any two requests)
         fam.append(("lists", dict(OpNames=LIST_OPS | {"Reopen"}, Depth=2, Types=ALLTYPES, Syms=ALLSYMS | {"custom"},
@@ -145,6 +147,8 @@ def families(q):
         fam.append(("tocnote", dict(OpNames={"AddHeading", "AddFootnoteToRun", "RemoveFootnote", "GenerateTOC", "AutoGenerateTOC",
                                              "UpdateTOC", "Reopen"}, Depth=4, Runs={"heading"}, Files={False, True}, HLvls={1, 4},
                                     HTexts={"Alpha"}, MLs={3}, Refs={"gone"}, MaxK=1)))
+        fam.append(("tocupd", dict(OpNames={"AddHeading", "GenerateTOC", "UpdateTOC", "AutoGenerateTOC"}, Depth=5, HLvls={1, 2, 4},
+                                   MLs={3}, MaxHeads=3)))
     return fam
 
 
